@@ -12,7 +12,8 @@ C(d) == CandsOf(In.tier, d)
 
 Case(d, v) == [v |-> v, acc |-> Accepts(d, v), why |-> Violated(d, v), norm |-> Normalised(d, v),
                \* decided by a declared option: the option-free declaration answers differently, or the value changes
-               nontrivial |-> (Accepts(d, v) # PlainAccepts(d, v)) \/ (Accepts(d, v) /\ Normalised(d, v) # v)]
+               nontrivial |-> (Accepts(d, v) # PlainAccepts(d, v)) \/ (Accepts(d, v) /\ Normalised(d, v) # v) \/
+                              (Accepts(d, v) # Accepts(WithSupplied(d, "absent"), v))]
 
 Row(d) == [decl |-> d, def |-> IF DefRejected(d) THEN "reject" ELSE "ok",
            cases |-> IF DefRejected(d) THEN {} ELSE { Case(d, v) : v \in C(d) }]
